@@ -85,6 +85,8 @@ impl crate::graph::GraphRunner for MTGraph {
                             Ok(v) => v,
                             Err(e) => {
                                 error!("Block work function failed: {e}");
+                                // Stop the rest of the graph too.
+                                cancel_token.cancel();
                                 return Err(e);
                             }
                         };
@@ -129,15 +131,25 @@ impl crate::graph::GraphRunner for MTGraph {
             threads.push(th);
         }
         debug!("Joining threads");
+        let mut first_err = None;
         for (n, th) in threads.into_iter().rev().enumerate() {
             let name = th.thread().name().unwrap().to_string();
             debug!("Waiting for {}", name);
-            let j = th
-                .join()
-                .expect("joining thread")
-                .expect("block exit status");
+            let j = match th.join().expect("joining thread") {
+                Ok(j) => j,
+                Err(e) => {
+                    // Keep joining the other threads, then report the error.
+                    if first_err.is_none() {
+                        first_err = Some(e);
+                    }
+                    BlockStats::default()
+                }
+            };
             debug!("Thread {} finished with {:?}", name, j);
             self.block_stats.insert((n, name), j);
+        }
+        if let Some(e) = first_err {
+            return Err(e);
         }
         self.spent_time = Some(st.elapsed());
         self.spent_cpu_time = Some(get_cpu_time() - run_start_cpu);
